@@ -69,6 +69,7 @@ fn main() {
     "C01" => vprop::c01::run(&cfg),
     "C02" => vprop::c02::run(&cfg),
     "C03" => vprop::c03::run(&cfg),
+    "C04" => vprop::c04::run(&cfg),
     "C05" => vprop::c05::run(&cfg),
     "C10" => vprop::c10::run(&cfg),
     "C19" => vprop::c19::run(&cfg),
